@@ -101,6 +101,12 @@ func (w *World) Harnesses(prefix string) []string {
 
 // GoEnv is the environment for every go command the framework runs: the
 // go1.26.8 toolchain first on PATH, offline module mode.
+func init() {
+	// exec.LookPath resolves "go" through the process PATH, so the toolchain
+	// must come first there as well.
+	os.Setenv("PATH", "/opt/veriftools/go1.26.8/bin:"+os.Getenv("PATH"))
+}
+
 func GoEnv() []string {
 	env := []string{}
 	for _, e := range os.Environ() {
@@ -110,6 +116,6 @@ func GoEnv() []string {
 		}
 		env = append(env, e)
 	}
-	return append(env, "PATH=/opt/veriftools/go1.26.8/bin:"+os.Getenv("PATH"),
+	return append(env, "PATH="+os.Getenv("PATH"),
 		"GOFLAGS=-mod=mod", "GOPROXY=off", "GOTOOLCHAIN=local", "GOSUMDB=off")
 }
